@@ -447,7 +447,6 @@ class Acl(AceGroup):
         shading_d: DLStr = self.shading(skip)
         if not shading_d:
             return {}
-        shadow: LStr = [s for ls in shading_d.values() for s in ls]
 
         acl_new: Acl = self.copy()
         acl_new.ungroup()
@@ -457,10 +456,10 @@ class Acl(AceGroup):
         shading_reversed.reverse()
         for top in shading_reversed:
             idx = aces.index(top) + 1
+            shadow: LStr = shading_d[top]  # only ACEs in the shadow of this top, below it
             items_top = acl_new.items[:idx]
             items_bot = acl_new.items[idx:]
             items_bot = [o for o in items_bot if o.line not in shadow]
-            shadow = [s for s in shadow if top != s]
             acl_new.items = items_top + items_bot
 
         if self.group_by:
